@@ -475,8 +475,7 @@ def run_case(ctx, case):
             # mesh / sketch are left apart (nothing is backported) - "afterwards mesh vertices equal the optimizer's positions"
             ctx.count("optimize-aborted")
             at_bound = sorted({clamp_of[s["node"]]["type"] for s in mon.steps if s["node"] in clamp_of
-                               and M.manifold_check(clamp_of[s["node"]], s["after"][s["node"]])[1] > -1 and
-                               _at_upper_bound(clamp_of[s["node"]], s["after"][s["node"]], size)})
+                               and _at_upper_bound(clamp_of[s["node"]], s["after"][s["node"]], size)})
             apart = float(np.max(np.linalg.norm(after - gridpts, axis=1)))
             ctx.violation(
                 f"optimize-aborted:{type(raised).__name__}@{where}",
